@@ -63,16 +63,20 @@ FP_DEFAULT_BITS = {  # numeric_limits<T>::min(), max(), quiet_NaN()
 def explicit_values(p):
     """(min, max, null) literals for the explicit flavours: list of (suffix, min, max, null)."""
     n = BITS[p]
+    # flavour "w": decimal numbers written with leading zeros (a schema number is decimal; pasted into C++ unchanged it
+    # would be an octal literal: 010 -> 8, 0099 -> ill-formed)
     if p == "char":
-        return [("x", "-128", "127", "-1"), ("y", "65", "90", "127")]
+        return [("x", "-128", "127", "-1"), ("y", "65", "90", "127"), ("w", "033", "0099", "000")]
     if p.startswith("uint"):
-        return [("x", "0", str(2 ** n - 1), "0"), ("y", "1", str(2 ** n - 2), str(2 ** n - 1))]
+        return [("x", "0", str(2 ** n - 1), "0"), ("y", "1", str(2 ** n - 2), str(2 ** n - 1)), ("w", "007", "0099", "0010")]
     if p.startswith("int"):
         return [("x", str(-(2 ** (n - 1))), str(2 ** (n - 1) - 1), "0"),
-                ("y", str(-(2 ** (n - 1)) + 1), str(2 ** (n - 1) - 2), str(2 ** (n - 1) - 1))]
+                ("y", str(-(2 ** (n - 1)) + 1), str(2 ** (n - 1) - 2), str(2 ** (n - 1) - 1)), ("w", "-010", "0099", "-000")]
     if p == "float":
-        return [("x", "-INF", "INF", "NaN"), ("y", "-1.5", "3.4028235e38", "-1.0"), ("z", "1e-3", "16777216.0", "-0.0")]
-    return [("x", "-INF", "+INF", "NaN"), ("y", "-1.5", "1.7976931348623157e308", "-1.0"), ("z", "1e-3", "9007199254740993.0", "-0.0")]
+        return [("x", "-INF", "INF", "NaN"), ("y", "-1.5", "3.4028235e38", "-1.0"), ("z", "1e-3", "16777216.0", "-0.0"),
+                ("w", "-010", "0099", "010.5")]
+    return [("x", "-INF", "+INF", "NaN"), ("y", "-1.5", "1.7976931348623157e308", "-1.0"), ("z", "1e-3", "9007199254740993.0", "-0.0"),
+            ("w", "-010", "0099", "0010")]
 
 
 def build_cases():
